@@ -708,8 +708,12 @@ func (b *BaseStore) LoadFromSnapshot(ctx context.Context) error {
 			entries = append(entries, &entry.Entry{Hash: h})
 		}
 
-		if err := b.Sync(ctx, entries); err != nil {
-			return fmt.Errorf("unable to sync queued CIDs: %w", err)
+		// only the hashes of the unfinished tasks were saved: these stubs cannot go
+		// through Sync (nothing to verify yet, no identity), the replicator fetches
+		// them by hash and the fetched entries are verified when they are joined
+		if len(entries) > 0 {
+			verifhook.Point("store.sync_spawn", b.id)
+			go b.Replicator().Load(ctx, entries)
 		}
 	}
 
